@@ -218,6 +218,24 @@ _mk_pm(False)
 _mk_pm(True)
 
 
+@obligation("C08", "pm.two-goal-states", functions=F,
+            bounds="point-mass state against 2 goal states (velocity interval / angle + velocity interval): disjunction, "
+                   "each goal state decided with hypot/atan2")
+def pm_two_goals(V):
+    g1 = Goal(V, "g1_", None, False, True)
+    g2 = Goal(V, "g2_", None, True, True)
+    t = V.int("s_t", 0)
+    vx, vy = V.real("s_vx", -50, 50), V.real("s_vy", -50, 50)
+    s = st.PMState(time_step=t, position=np.array([0.0, 0.0]), velocity=vx, velocity_y=vy)
+    order = V.choice("goal_order", 2)
+    goals = [g1, g2] if order == 0 else [g2, g1]
+    got = GoalRegion([g.state for g in goals]).is_reached(s)
+    speed = V.sqrt(vx * vx + vy * vy)
+    heading = atan2(V, vy, vx)
+    V.prove("pm: reached <=> some goal state satisfied (hypot/atan2 for each)",
+            V.iff(bool(got), V.Or(g1.spec(V, t, (0.0, 0.0), heading, speed), g2.spec(V, t, (0.0, 0.0), heading, speed))))
+
+
 @obligation("C08", "pm.principal-directions", functions=F,
             bounds="point-mass states along the 8 principal directions with symbolic magnitude; heading known exactly")
 def pm_dirs(V):
